@@ -339,6 +339,7 @@ def shards(tier, seed):
     for fi in range(len(FIRST)):
         sh.append({"k": "three-captions", "first": fi})
     sh.append({"k": "tables"})
+    sh.append({"k": "italic-rows"})
     return sh
 
 
@@ -436,6 +437,12 @@ def run_shard(d):
             for third in FIRST:
                 for doubled in (False, True):
                     check_program(acc, [wrap(first), wrap(second), wrap(third)], doubled, "three-captions")
+    elif k == "italic-rows":
+        from mc.checks import c11
+
+        for prog in c11.scc_programs():
+            for doubled in (False, True):
+                check_program(acc, prog, doubled, "italic-rows")
     elif k == "tables":
         for doubled in (False, True):
             for row in range(1, 16):
